@@ -484,7 +484,10 @@ pub struct Databases {
     pub pending_opps: std::sync::RwLock<HashMap<u64, ReplicationMessage>>,
     #[cfg(nundb_verif)]
     pub pending_opps: RwLock<HashMap<u64, ReplicationMessage>>,
+    #[cfg(not(nundb_verif))]
     pub keys_map: std::sync::RwLock<HashMap<String, u64>>,
+    #[cfg(nundb_verif)]
+    pub keys_map: RwLock<HashMap<String, u64>>,
     pub id_keys_map: std::sync::RwLock<HashMap<u64, String>>,
     pub to_snapshot: RwLock<Vec<(String, bool)>>, // (database_name, reclaim_space)
     pub cluster_state: Mutex<ClusterState>,
@@ -1000,7 +1003,10 @@ impl Databases {
             replication_ema: std::sync::RwLock::new(NunEma::new(100)), //@todo is 100 good?
             map: std::sync::RwLock::new(initial_dbs),
             id_name_db_map: std::sync::RwLock::new(id_name_db_map),
+            #[cfg(not(nundb_verif))]
             keys_map: std::sync::RwLock::new(keys_map),
+            #[cfg(nundb_verif)]
+            keys_map: RwLock::new(keys_map),
             id_keys_map: std::sync::RwLock::new(id_keys_map),
             to_snapshot: RwLock::new(Vec::new()),
             cluster_state: Mutex::new(ClusterState {
